@@ -47,7 +47,7 @@ pub fn run(cfg: &RunCfg) -> Ctx {
         all.floor(&format!("req.enc.{}", e.name()), 5);
         all.floor(&format!("resp.enc.{}", e.name()), 5);
     }
-    for k in ["outcome.ok", "outcome.handler_error", "outcome.source_error_mid_stream", "outcome.encode_failure", "outcome.client_encode_failure", "resp.trailers_only", "resp.trailers_block", "req.streaming_body"] {
+    for k in ["outcome.ok", "outcome.handler_error", "outcome.source_error_mid_stream", "outcome.encode_failure", "outcome.client_encode_failure", "req.streaming_body"] {
         all.floor(k, 5);
     }
     all
